@@ -15,6 +15,7 @@ witnesses of the known findings.
 from __future__ import annotations
 
 import json
+import re
 import sys
 
 from . import c04, common, progen, srcpy, whole
@@ -23,9 +24,12 @@ from .common import Check, Driver, proof_stage, rng_for
 PROP = "C01"
 MODULE = "PV.Props.C01"
 MODULE_CORE = "PV.Props.C01Strip"
+MODULE_FRONT = "PV.Props.C01Front"
 THEOREMS = ([f"PV.Props.C01.{t}" for t in ["tables_cover", "cmp_set_correct", "branch_neg_correct", "negated_table_negates", "branch_variant_table"]]
             + ["PV.Core.sim"] + [f"PV.Props.C01Core.{t}" for t in ["compile_correct_done", "compile_correct_running", "goodB_sound", "real_pairs_negate", "good_of_real_tables", "compProg_proc"]]
-            + [f"PV.Props.C01Strip.{t}" for t in ["comp_ok", "compile_correct_running_stripped", "compile_correct_done_stripped"]])
+            + [f"PV.Props.C01Strip.{t}" for t in ["comp_ok", "compile_correct_running_stripped", "compile_correct_done_stripped"]]
+            + [f"PV.Front.{t}" for t in ["sound_expr", "sound_test", "sound_stmt", "front_sound", "exec_grows", "fuel_stmt", "front_prefix"]]
+            + [f"PV.Props.C01Front.{t}" for t in ["source_to_chip_done", "source_to_chip_running", "source_to_chip_done_stripped", "source_to_chip_running_stripped", "intSemOk"]])
 
 N = float
 
@@ -51,6 +55,12 @@ WITNESSES = {
     "F-C01-h": (_w([("gassign", "x", rd(12)), ("gassign", "y", ("ifexp", ("bin", "sgt", ("gvar", "x"), ("num", -100.0)), ("gvar", "x"), ("call", "fa", [("gvar", "x")]))), wr(28, ("gvar", "y"))],
                    funcs=[{"name": "fa", "params": ["a"], "body": [wr(3, ("lvar", "a")), ("ret", ("bin", "add", ("lvar", "a"), ("num", 1.0)))]}]),
                 "both arms of a conditional expression are evaluated (select): a call in the arm that is not chosen is executed, and emitted twice"),
+    # the reference program passes both arguments; the SOURCE TEXT (third component) leaves the second one to its default value
+    "F-C01-i": (_w([("gassign", "x", rd(12)), ("expr", ("call", "fa", [("gvar", "x"), ("num", 2.0)])), ("expr", ("call", "fa", [("gvar", "x"), ("num", 2.0)])),
+                    ("while", ("num", 1.0), [("yield",)])],
+                   funcs=[{"name": "fa", "params": ["a", "b"], "body": [wr(3, ("bin", "add", ("lvar", "a"), ("lvar", "b")))]}]),
+                "a parameter's default value is never passed to a function compiled out of line: `def fa(a, b=2)` called as `fa(x)` reads an unwritten argument cell (0) for b",
+                lambda src: re.sub(r"fa\((\w+), 2\)", r"fa(\1)", src.replace("def fa(a, b):", "def fa(a, b=2):"))),
 }
 
 
@@ -73,7 +83,7 @@ def run(tier: str, seed: int) -> int:
     chk.assumptions = ["PV.Src (reference semantics of the dialect) and PV.IC10 (machine) are hand-written trusted specifications; NaN and non-finite values are outside the compared domain",
                        "proved: branch-selection tables (all operators, all values of a linear order). NOT proved for the real generator: whole-program trace equality — explored by the executable oracle on generated programs",
                        "generated programs avoid the trigger patterns of the known findings (progen.Profile); witnesses of those findings are run separately"]
-    rep, br, audit = proof_stage(chk, MODULE_CORE, THEOREMS, extra_targets=[MODULE])
+    rep, br, audit = proof_stage(chk, MODULE_FRONT, THEOREMS, extra_targets=[MODULE, MODULE_CORE])
     drv = Driver()
     r = rng_for(PROP, seed)
     budget = whole.QUICK_BUDGET if tier == "quick" else whole.THOROUGH_BUDGET
@@ -146,6 +156,10 @@ def run(tier: str, seed: int) -> int:
         chk.bump(fprof + ":" + v["verdict"])
         if v["verdict"] == "same":
             chk.count(("incore", src), nontrivial=True)
+            # the proved front-end fragment (PV.Front, theorem source_to_chip_done): inside / outside / model disagreement
+            chk.bump("front:" + v.get("front", "?"))
+            if v.get("front") == "differ" or v.get("semok") is False:
+                chk.coverage.setdefault("model_internal", []).append({"src": src, "detail": "PV.Front.flatten differs from PV.Flatten.flatten" if v.get("front") == "differ" else "SemOk fails on the value pool"})
             # the next link of the chain: the real register allocation of this program, judged by the validator of C04
             # (`checkAlloc_sound_static`: accepted ⇒ the allocated code runs in lock step with the pre-allocation code)
             av = c04.validator_verdict(drv, cap)
@@ -184,8 +198,11 @@ def run(tier: str, seed: int) -> int:
     chk.coverage["features"] = dict(sorted(feats.items()))
     # witnesses of the known findings
     known_ids = {f["id"] for f in chk.known}
-    for fid, (prog, what) in WITNESSES.items():
+    for fid, w in WITNESSES.items():
+        prog, what = w[0], w[1]
         src = progen.print_program(prog)
+        if len(w) > 2:
+            src = w[2](src)
         st, d = whole.judge_equiv(drv, prog, src, [0.0, 1.0, 2.0, 5.0, 6.0, 7.0], whole.default_opts(append_version=False), [1, 2, 3], budget)
         if st == "bad":
             if fid in known_ids:
